@@ -40,6 +40,9 @@ pub struct Model {
     /// of the trace at every later event of the module - how far it got may only depend on virtual time, never on
     /// how long the executor needed
     pub marathon_yields: u32,
+    /// builder options chained after Builder::seeded: 0 none, 1 cqueue_options(default values), 2 cqueue_options(64, 1 ms),
+    /// 3 start_time(0) + max_time(far) - none of them may touch the seeded generator
+    pub builder_options: u8,
 }
 
 pub fn gen_model(model_seed: u64) -> Model {
@@ -57,6 +60,7 @@ pub fn gen_model(model_seed: u64) -> Model {
         same_deadline_tasks: (0..n).map(|_| if rng.chance(1, 3) { 2 + rng.usize_below(7) } else { 0 }).collect(),
         hashed_bodies: rng.chance(1, 2),
         marathon_yields: if rng.chance(1, 150) { 300_000 + rng.below(200_000) as u32 } else { 0 },
+        builder_options: if rng.chance(1, 2) { 1 + rng.below(3) as u8 } else { 0 },
     }
 }
 
@@ -248,7 +252,16 @@ pub fn execute(model: &Model, sim_seed: u64) -> Outcome {
                 );
             }
         }
-        let mut rt = Builder::seeded(sim_seed).quiet().max_itr(20_000).build(sim.freeze());
+        let mut b = Builder::seeded(sim_seed).quiet().max_itr(20_000);
+        b = match model.builder_options {
+            #[cfg(feature = "cq")]
+            1 => b.cqueue_options(1028, Duration::from_nanos(2_500_000)),
+            #[cfg(feature = "cq")]
+            2 => b.cqueue_options(64, Duration::from_nanos(MS)),
+            3 => b.start_time(SimTime::ZERO).max_time(SimTime::from_duration(Duration::from_secs(100_000))),
+            _ => b,
+        };
+        let mut rt = b.build(sim.freeze());
         // the runtime handle's own entry points to the seeded generator (driver code between build and run)
         let a: u64 = rt.random();
         let b: u32 = rt.rng_sample(Uniform::new(0u32, 1_000_000).unwrap());
@@ -356,6 +369,9 @@ pub fn cmd(args: &Args) -> Report {
             rep.count("select_choices_observed", a.trace.iter().filter(|l| l.contains(" select ")).count() as u64);
             rep.count("random_draws_observed", a.trace.iter().filter(|l| l.contains(" drew ") || l.contains("-sample ")).count() as u64);
             rep.count("restarts_observed", a.trace.iter().filter(|l| l.contains("requests restart")).count() as u64);
+            if model.builder_options > 0 {
+                rep.count("models_with_builder_options_chained_after_seeded", 1);
+            }
             if model.marathon_yields > 0 {
                 rep.count("models_with_a_task_of_over_300000_polls_in_one_instant", 1);
             }
